@@ -25,19 +25,15 @@ for p in PROPS:
         base[p] = {f.key for f in analyse(p, "/repo", False).findings}
     except AnalysisError as e:
         base[p] = None
-res = {}
-for d in sorted(glob.glob(os.path.join(src, "*", "*.diff"))):
+def one(d):
     name = os.path.relpath(d, src)
-    if only and name.replace(".diff", "") not in only:
-        continue
     tmp = tempfile.mkdtemp(prefix="jtsa_rf_")
     try:
         shutil.copytree("/repo/jaxtyping", os.path.join(tmp, "jaxtyping"), ignore=shutil.ignore_patterns("__pycache__"))
         shutil.copytree("/repo/docs", os.path.join(tmp, "docs"))
         r = subprocess.run(["git", "apply", "--unsafe-paths", "--directory", tmp, d], cwd=tmp, capture_output=True, text=True)
         if r.returncode != 0:
-            res[name] = {"apply": "failed: " + r.stderr[:100]}
-            continue
+            return name, {"apply": "failed: " + r.stderr[:100]}
         out = {}
         for p in PROPS:
             try:
@@ -47,9 +43,18 @@ for d in sorted(glob.glob(os.path.join(src, "*", "*.diff"))):
                     out[p] = ["VIOLATION " + f.rule + " " + f.function + ": " + f.message[:140] for f in new[:3]]
             except AnalysisError as e:
                 out[p] = ["ANALYSIS-ERROR " + str(e)[:200]]
-        res[name] = out
+        return name, out
     finally:
         shutil.rmtree(tmp, ignore_errors=True)
+
+
+diffs = [d for d in sorted(glob.glob(os.path.join(src, "*", "*.diff"))) if "patch_current" not in d]
+if only:
+    diffs = [d for d in diffs if os.path.relpath(d, src).replace(".diff", "") in only]
+from concurrent.futures import ProcessPoolExecutor
+
+with ProcessPoolExecutor(max_workers=min(16, os.cpu_count() or 4)) as ex:
+    res = dict(ex.map(one, diffs))
 nv = sum(1 for v in res.values() for lst in v.values() if isinstance(lst, list) and any(x.startswith("VIOLATION") for x in lst))
 ne = sum(1 for v in res.values() for lst in v.values() if isinstance(lst, list) and any(x.startswith("ANALYSIS") for x in lst))
 for k, v in res.items():
